@@ -156,12 +156,12 @@ def s2_programs(task):
     sym = {s[0]: s for s in progs.XFER}[task['ref']]
     for gapn in task['gaps']:
         for bname in task['between']:
-            for pre in ((), (progs.I('addi', rd=8, rs1=8, imm=1),)):
+            for pre in ((), (progs.I('addi', rd=8, rs1=8, imm=1),), (progs.I('addi', rd=8, rs1=8, imm=1), L.align(4))):
                 yield progs.span_program(sym[1], task['dir'], BETWEEN[bname], gapn, pre=pre)
 
 
 def describe(tier):
-    return ('S1: all closed programs of <= %d lines over the alphabet; S2: %d transfer kinds x 2 directions x between-sequences x 2 prefixes x every gap in '
+    return ('S1: all closed programs of <= %d lines over the alphabet; S2: %d transfer kinds x 2 directions x between-sequences x 3 prefixes (nothing / a compressible instruction / that plus an align 4) x every gap in '
             '236..267, 2030..2063, 4080..4111 and (jumps/call/tail) 2^20-24..2^20+24, 2^20+0x7e8..2^20+0x818, 2 MiB, 3 MiB; data-size family: %d data item kinds alone and in all pairs '
             'between a transfer and its label (3 shapes); far-context family: 5 far prefixes (call / tail / li to a label 2 MiB away) x all closed sequences of <= 3 items over 9 symbols'
             % (depth(tier), len(progs.XFER), len(progs.DATA_ALL)))
